@@ -267,7 +267,7 @@ def gen_matchers(tier):
 # commands
 
 CMD_NAMES = ['help', 'list', 'filter', 'breakpoint', 'matcher', 'connection', 'resume', 'quit']
-ARGS = ['', 'wl_surface', '[', 'a:b:c', '~', '~ 3', '~ x', 'wl_surface ~ 2', '~ -1', '~ 0', '~~', 'x ~ 1 ~ 2', '*', '!', 'A', 'all', 'zz',
+ARGS = ['', 'quit', 'resume', 'q', 'wlquit', 'r', 'help', 'wl_surface', '[', 'a:b:c', '~', '~ 3', '~ x', 'wl_surface ~ 2', '~ -1', '~ 0', '~~', 'x ~ 1 ~ 2', '*', '!', 'A', 'all', 'zz',
         'matcher', 'list', 'wl list', '(5)', '(1.5)', '(inf)', '("y")', 'B: 4a', '\x1b[31m', '\x00', 'é', '  ', '.new', '.destroyed(x)',
         '~ 99999999999999999999', '4294967296', '(-1e999)', ':', '@', '#', '=', '""', '"']
 STATES = ['empty', 'loaded', 'selected', 'closed']
@@ -302,6 +302,20 @@ def make_state(name):
     return s
 
 
+def _effective_word(line):
+    """The command word of a prompt line once GDB-style prefixes (`w`, `wl`, `wlq`) are peeled off: only `resume` and
+    `quit` (and their abbreviations) may legitimately print nothing."""
+    import re
+    for _ in range(8):
+        parts = re.split(r'\s', sut.strip_sgr(line).strip(), maxsplit=1)
+        first = parts[0].strip().lower()
+        if first in ('w', 'wl'):
+            line = parts[1] if len(parts) > 1 else ''
+            continue
+        return first[2:] if first.startswith('wl') else first
+    return ''
+
+
 def eval_command(case):
     V = []
     try:
@@ -309,8 +323,7 @@ def eval_command(case):
         word, arg = case['word'], case['arg']
         line = word + (' ' + arg if arg else '')
         out, err = s.cmd(line)
-        silent_ok = any(n.startswith(sut.strip_sgr(word).strip().lower().replace('wl', '', 1) or '\0') for n in ('resume', 'quit')) or \
-            sut.strip_sgr(word).strip() in ('w', 'wl') and any(n.startswith((sut.strip_sgr(arg).split() or ['\0'])[0]) for n in ('resume', 'quit'))
+        silent_ok = any(n.startswith(_effective_word(line) or '\0') for n in ('resume', 'quit'))
         if not out and not err and not silent_ok:
             V.append(Violation('command.silent', case, {'line': line}))
         # the session is still usable
